@@ -2,7 +2,7 @@
 """dev helper: mechanical single-token mutation survey.  Generates mutants of the non-test library source (comparison / arithmetic /
 boolean operators, small constants), filters those that compile, and runs every claimed QUICK check against each in a scratch worktree
 (checks from VERIF_CHECK_DIR or /verif).  A mutant nobody reports is either equivalent or a blind spot - the list is for reading.
-usage: tools_mutation_survey.py <out.jsonl> [--workers N] [--limit K] [--files a.rs,b.rs] [--seed S] [--delete] [--residue-of earlier.jsonl]"""
+usage: tools_mutation_survey.py <out.jsonl> [--workers N] [--limit K] [--files a.rs,b.rs] [--seed S] [--delete] [--swap12] [--residue-of earlier.jsonl]"""
 import json, os, random, re, shutil, subprocess, sys, tempfile, threading, queue
 V = "/verif"
 CHK = os.environ.get("VERIF_CHECK_DIR", V)
@@ -45,6 +45,16 @@ for p in paths:
                 muts.append((p, i, l, re.match(r"^\s*", l).group(0) + "// (deleted)", "DEL"))
             elif re.match(r"^\s*[\w\.]+\.[\w]+\(.*\);\s*$", code) and "assert" not in code and "invariant" not in code:
                 muts.append((p, i, l, re.match(r"^\s*", l).group(0) + "// (deleted)", "DELCALL"))
+            continue
+        if "--swap12" in sys.argv:
+            # copy-paste slips between the paired halves of the data structures: one occurrence of a "1" name written as its "2" twin
+            PAIRS = [("len_blockhash1", "len_blockhash2"), ("blockhash1", "blockhash2"), ("block_hash_1", "block_hash_2"), ("S1", "S2"), ("C1", "C2"),
+                     ("bh_0", "bh_1"), ("h_full", "h_half"), ("FULL_SIZE", "HALF_SIZE"), ("rle_block1", "rle_block2"), ("blockhash_ch_full", "blockhash_ch_half")]
+            for a_, b_ in PAIRS:
+                for x_, y_ in ((a_, b_), (b_, a_)):
+                    for m in re.finditer(r"(?<![\w])%s(?![\w])" % re.escape(x_), code):
+                        new = code[:m.start()] + y_ + code[m.end():] + l[len(code):]
+                        muts.append((p, i, l, new, x_ + "->" + y_))
             continue
         for rx, rep in OPS:
             for m in re.finditer(rx, code):
